@@ -211,6 +211,8 @@ bool FIXReader::read(f8String& to)	// read a complete FIX message
 
 	if (result == static_cast<int>(_bg_sz))
 	{
+		if (!isdigit(msg_buf[_bg_sz - 1]))	// the first BodyLength digit arrives with the preamble
+			throw IllegalMessage(msg_buf, FILE_LINE);
 		char bt;
 		size_t offs(_bg_sz);
 		do	// get the last chrs of bodylength and ^A
